@@ -46,6 +46,65 @@ def main():
     if not bad:
         print("selftest FAILED: mutated __len__ not detected")
         ok = False
+    # 3b. C11: implicit reads wrongly served from the program inputs inside a lambda
+    import vyxal.helpers as H
+
+    from vmc.core import explore
+    from vmc.props import c11
+
+    c11.install()
+    wrapped = H.get_input
+    real = wrapped.__wrapped__
+
+    def bad_get_input(ctx):
+        if ctx.inputs[0][0]:
+            v = ctx.inputs[0][0][ctx.inputs[0][1] % len(ctx.inputs[0][0])]
+            ctx.inputs[0][1] += 1
+            return v
+        return 0
+
+    import types
+
+    # re-wrap the mutated function with the logging wrapper's closure cell
+    cell = [c for c in wrapped.__closure__ if isinstance(c.cell_contents, types.FunctionType) and c.cell_contents is real]
+    part = explore.Partial()
+    if cell:
+        cell[0].cell_contents = bad_get_input
+        c11.check(part, (c11.PUSH, c11.lam(1, c11.P1, c11.P1)), [101, 102])
+        cell[0].cell_contents = real
+        if not part.d["violations"]:
+            print("selftest FAILED: mutated get_input not detected by C11")
+            ok = False
+    else:
+        print("selftest FAILED: could not interpose get_input")
+        ok = False
+    # 3c. C19: online evaluation through eval() must be seen by the audit hook
+    import vyxal.elements as E
+    import vyxal.main as M
+
+    from vmc.props import c19
+
+    orig_eval = H.vy_eval
+
+    def bad_eval(item, ctx):
+        try:
+            return H.vyxalify(eval(item))
+        except Exception:
+            return item
+
+    for mod in (H, E, M):
+        mod.vy_eval = bad_eval
+    part = explore.Partial()
+    c19.check(part, ("S1", "E"), "none", "")
+    for mod in (H, E, M):
+        mod.vy_eval = orig_eval
+    if not any("executed as Python" in v["signature"] for v in part.d["violations"]):
+        print("selftest FAILED: eval() of tainted text in online mode not detected by C19")
+        ok = False
+    part = explore.Partial()
+    c19.check(part, ("S1", "E"), "none", "")
+    if part.d["violations"]:
+        print("selftest: unexpected C19 violation on the unmutated tree", part.d["violations"][:1])
     # 4. python3-vt + jsonschema available for evidence validation
     import subprocess
 
